@@ -187,6 +187,25 @@ fn parse_type_pre_stepped<'a>(
                         })
                     })
                     .or_else(|| {
+                        if !content.peek(token::Bracket) {
+                            return None;
+                        }
+                        content
+                            .parse::<syn::ExprArray>()
+                            .ok()?
+                            .elems
+                            .iter()
+                            .map(|elem| match elem {
+                                syn::Expr::Lit(syn::ExprLit {
+                                    lit: syn::Lit::Int(val),
+                                    ..
+                                }) => val.base10_parse::<u8>().ok(),
+                                _ => None,
+                            })
+                            .collect::<Option<Vec<u8>>>()
+                            .map(LiteralValue::OctetString)
+                    })
+                    .or_else(|| {
                         content.parse::<syn::Path>().ok().and_then(|path| {
                             if path.segments.len() == 2 {
                                 let mut iter = path.segments.iter();
